@@ -77,6 +77,12 @@ pub struct ReqLog {
     pub outcome: String,
     /// order in which effects were applied (0 = no effect applied)
     pub effect_seq: u64,
+    /// number of mutations that had been applied when this request was served
+    /// (identifies the version a read observed)
+    pub seen_seq: u64,
+    /// wall-clock time at which the request was served
+    #[serde(skip, default = "Utc::now")]
+    pub wall: DateTime<Utc>,
 }
 
 #[derive(Clone, Debug)]
@@ -92,6 +98,8 @@ pub struct VersionRec {
     pub shift_s: i64,
     pub wall: DateTime<Utc>,
 }
+
+pub const HARNESS_NODE: u32 = u32::MAX;
 
 #[derive(Clone, Debug)]
 pub struct PendingInfo {
@@ -157,6 +165,11 @@ impl std::fmt::Debug for SimCore {
     fn fmt(&self, f: &mut std::fmt::Formatter<'_>) -> std::fmt::Result {
         write!(f, "SimCore")
     }
+}
+
+/// Store key for a path string as printed by `Path::to_string` (already percent-encoded).
+fn key(path: &str) -> Path {
+    Path::parse(path).unwrap_or_else(|_| Path::from(path))
 }
 
 fn injected(path: &str) -> object_store::Error {
@@ -277,10 +290,10 @@ impl SimCore {
 
     // ---- direct (un-gated, un-logged) access for oracles and set-up ----
     pub fn peek(&self, path: &str) -> Option<Bytes> {
-        self.st.lock().map.get(&Path::from(path)).map(|e| e.data.clone())
+        self.st.lock().map.get(&key(path)).map(|e| e.data.clone())
     }
     pub fn exists(&self, path: &str) -> bool {
-        self.st.lock().map.contains_key(&Path::from(path))
+        self.st.lock().map.contains_key(&key(path))
     }
     pub fn paths(&self) -> Vec<String> {
         self.st.lock().map.keys().map(|k| k.to_string()).collect()
@@ -296,18 +309,31 @@ impl SimCore {
         let mut st = self.st.lock();
         let e_tag = st.next_etag;
         st.next_etag += 1;
-        st.map.insert(Path::from(path), Entry { data, last_modified: Utc::now(), attributes: Attributes::default(), e_tag });
+        st.map.insert(key(path), Entry { data, last_modified: Utc::now(), attributes: Attributes::default(), e_tag });
     }
-    /// Rewrite stored bytes keeping the ETag (used to shift stored instants).
+    /// Rewrite stored bytes (used to shift stored instants).  The ETag is bumped so
+    /// that any read-modify-write in flight across the rewrite is refused and
+    /// restarts from the rewritten state (its payload would otherwise carry
+    /// instants computed in the old time frame).  Recorded as a version written
+    /// by `HARNESS_NODE`.
     pub fn surgery(&self, path: &str, f: impl FnOnce(&[u8]) -> Option<Vec<u8>>) -> bool {
         let mut st = self.st.lock();
-        if let Some(e) = st.map.get_mut(&Path::from(path)) {
-            if let Some(nb) = f(&e.data) {
-                e.data = Bytes::from(nb);
-                return true;
-            }
+        let key = key(path);
+        let nb = match st.map.get(&key).and_then(|e| f(&e.data)) {
+            Some(nb) => Bytes::from(nb),
+            None => return false,
+        };
+        let e_tag = st.next_etag;
+        st.next_etag += 1;
+        st.effect_seq += 1;
+        let eseq = st.effect_seq;
+        let shift_s = st.shift_s;
+        if let Some(e) = st.map.get_mut(&key) {
+            e.data = nb.clone();
+            e.e_tag = e_tag;
         }
-        false
+        st.versions.push(VersionRec { path: path.to_string(), etag: e_tag.to_string(), data: nb, node: HARNESS_NODE, req_id: u64::MAX, effect_seq: eseq, conditional: true, shift_s, wall: Utc::now() });
+        true
     }
 
     // ---- the gate ----
@@ -324,7 +350,7 @@ impl SimCore {
             let id = st.next_id;
             st.next_id += 1;
             let dead = st.dead.contains(&desc.node);
-            st.log.push(ReqLog { id, desc: desc.clone(), decision: None, outcome: if dead { "dead".into() } else { "parked".into() }, effect_seq: 0 });
+            st.log.push(ReqLog { id, desc: desc.clone(), decision: None, outcome: if dead { "dead".into() } else { "parked".into() }, effect_seq: 0, seen_seq: 0, wall: Utc::now() });
             if dead {
                 G::Dead
             } else {
@@ -379,9 +405,12 @@ impl SimCore {
 
     pub fn finish(&self, id: u64, outcome: &str, effect_seq: u64) {
         let mut st = self.st.lock();
+        let seen = st.effect_seq;
         if let Some(l) = st.log.iter_mut().rev().find(|l| l.id == id) {
             l.outcome = outcome.to_string();
             l.effect_seq = effect_seq;
+            l.seen_seq = seen;
+            l.wall = Utc::now();
         }
     }
 
@@ -865,4 +894,66 @@ pub async fn drive(core: &Arc<SimCore>, done: &mut dyn FnMut() -> bool, choose: 
             Choice::Stop => return DriveEnd::StepLimit,
         }
     }
+}
+
+// ---------------------------------------------------------------------------
+// Schedule-driven driver with an optional "victim" (a node that is always
+// overtaken between its GET and its PUT, to reach conflict-retry exhaustion).
+// ---------------------------------------------------------------------------
+
+pub struct SchedRun {
+    pub end: DriveEnd,
+    pub scheduled: u64,
+}
+
+/// `finished(i)` tells whether task i is done; `victim_task` is the index of the
+/// task whose node is the victim.
+pub async fn drive_schedule(
+    core: &Arc<SimCore>,
+    handles: &[tokio::task::JoinHandle<()>],
+    schedule: &[u16],
+    victim: Option<(u32, usize)>,
+    max_steps: usize,
+) -> SchedRun {
+    let mut pos = 0usize;
+    let mut victim_waits = 0u32;
+    let mut foreign_commits_since_victim_get = 0usize;
+    let mut scheduled = 0u64;
+    let mut choose = |pend: &[PendingInfo]| -> Choice {
+        // after the generated schedule is exhausted: deterministic rotation over the parked requests
+        let sv = if pos < schedule.len() { schedule[pos] } else { ((pos as u32 * 7919) % 65521) as u16 & !7 };
+        pos += 1;
+        if sv % 8 == 7 && pos <= schedule.len() {
+            return Choice::Wait(std::time::Duration::from_millis(150 * (1 + (sv as u64 >> 3) % 8)));
+        }
+        let mut cands: Vec<&PendingInfo> = pend.iter().collect();
+        if let Some((vnode, vtask)) = victim {
+            if !pend.iter().any(|p| p.desc.node == vnode) && !handles[vtask].is_finished() && victim_waits < 40 {
+                victim_waits += 1;
+                return Choice::Wait(std::time::Duration::from_millis(400));
+            }
+            let vput = pend.iter().any(|p| p.desc.node == vnode && p.desc.op == OpKind::Put);
+            if vput && foreign_commits_since_victim_get == 0 {
+                let others: Vec<&PendingInfo> = pend.iter().filter(|p| p.desc.node != vnode).collect();
+                if !others.is_empty() {
+                    cands = others;
+                }
+            }
+        }
+        let pick = cands[crate::core::pick_idx(sv, cands.len())];
+        if let Some((vnode, _)) = victim {
+            if pick.desc.node == vnode {
+                if pick.desc.op == OpKind::Get {
+                    foreign_commits_since_victim_get = 0;
+                }
+            } else if pick.desc.op == OpKind::Put {
+                foreign_commits_since_victim_get += 1;
+            }
+        }
+        scheduled += 1;
+        Choice::Release(pick.id, Decision::Proceed)
+    };
+    let mut done = || handles.iter().all(|h| h.is_finished());
+    let end = drive(core, &mut done, &mut choose, max_steps).await;
+    SchedRun { end, scheduled }
 }
